@@ -90,7 +90,18 @@ func buildScenario(r recipe) *scenario {
 	var after []delivery
 	switch r.ctx {
 	case "tip":
-		s = scen{n + 1, n}
+		s = scen{n + 1, n, 1}
+	case "tmpl":
+		// CheckConnectBlockTemplate on the tip: nothing is stored, proof of work is not checked
+		s = scen{n, n, 0}
+	case "side2":
+		// main chain: two more blocks; side chain: a plain block, then the candidate, then a child that wins
+		main := bs.p.clone()
+		m1 := plainBlock(main, 211, blockSpacing+7)
+		m2 := plainBlock(main, 212, blockSpacing)
+		s1 := plainBlock(parent, 213, blockSpacing+3)
+		sc.dels = append(sc.dels, delivery{m1, false}, delivery{m2, false}, delivery{s1, false})
+		s = scen{n + 3, n + 2, 1}
 	case "fork":
 		// an unrelated side chain of equal length off block n-2, plus an unrelated orphan, come first
 		side := newPath(v)
@@ -103,15 +114,15 @@ func buildScenario(r recipe) *scenario {
 		f4 := plainBlock(side, 104, blockSpacing)
 		_ = f3
 		sc.dels = append(sc.dels, delivery{f1, false}, delivery{f2, false}, delivery{f4, false})
-		s = scen{n + 1, n}
+		s = scen{n + 1, n, 1}
 	case "side":
 		// the main chain gets one more block first; the candidate is its sibling and wins with a child
 		main := bs.p.clone()
 		m1 := plainBlock(main, 201, blockSpacing+7)
 		sc.dels = append(sc.dels, delivery{m1, false})
-		s = scen{n + 2, n + 1}
+		s = scen{n + 2, n + 1, 1}
 	case "orphan":
-		s = scen{n + 2, n}
+		s = scen{n + 2, n, 1}
 	default:
 		return nil
 	}
@@ -132,9 +143,9 @@ func buildScenario(r recipe) *scenario {
 		return plainBlock(q, 301, blockSpacing)
 	}
 	switch r.ctx {
-	case "tip", "fork":
+	case "tip", "fork", "tmpl":
 		sc.dels = append(sc.dels, delivery{sc.cand, true})
-	case "side":
+	case "side", "side2":
 		sc.dels = append(sc.dels, delivery{sc.cand, true}, delivery{child(), true})
 	case "orphan":
 		sc.dels = append(sc.dels, delivery{child(), true}, delivery{sc.cand, true})
@@ -334,7 +345,12 @@ func (sc *scenario) run() string {
 			continue
 		}
 		in.delivered[d.blk.BlockHash()] = true
-		_, _, err := chain.ProcessBlock(btcutil.NewBlock(d.blk), blockchain.BFNone)
+		var err error
+		if sc.r.ctx == "tmpl" {
+			err = chain.CheckConnectBlockTemplate(btcutil.NewBlock(d.blk))
+		} else {
+			_, _, err = chain.ProcessBlock(btcutil.NewBlock(d.blk), blockchain.BFNone)
+		}
 		if err == nil {
 			continue
 		}
@@ -405,7 +421,7 @@ func Lines(seed uint64, thorough bool) []string {
 }
 
 func generate(R *core.Rand, thorough bool, emit func(class string, nontrivial bool, line string)) {
-	ctxs := []string{"tip", "side", "orphan", "fork"}
+	ctxs := []string{"tip", "side", "orphan", "fork", "side2", "tmpl"}
 	for vi, v := range variants {
 		for _, m := range mutators {
 			if !m.applies(v, v.baseLen()+1) {
@@ -428,6 +444,9 @@ func generate(R *core.Rand, thorough bool, emit func(class string, nontrivial bo
 					}
 				}
 				for _, r := range picks {
+					if r.ctx == "tmpl" && (m.name == "highhash" || (m.name == "bits" && a == 0x1d00ffff)) {
+						continue // the template check skips the hash comparison
+					}
 					if (m.name == "weight" || m.name == "basesize") && !thorough && vi != 0 && vi != 1 && vi != 2 {
 						continue
 					}
@@ -464,4 +483,17 @@ func (P) Facts() []core.Fact {
 		{Name: "maxTxInSequenceNum", Value: int64(wire.MaxTxInSequenceNum)},
 		{Name: "regtestPowLimitBits", Value: int64(chaincfg.RegressionNetParams.PowLimitBits)},
 	}
+}
+
+// LineOf renders the protocol line of one recipe ("" if the recipe does not apply).
+func LineOf(rs string) string {
+	r, ok := parseRecipe(rs)
+	if !ok {
+		return ""
+	}
+	sc := buildScenario(r)
+	if sc == nil {
+		return ""
+	}
+	return sc.line()
 }
